@@ -40,6 +40,9 @@ HARNESS = {
                 'assume': 'true', 'call': 'check_c13_iter(&buf, count, 0, little, true)', 'unwind': 8},
     'c13_req': {'args': [('versym', 'u8x4'), ('need', 'u8x32'), ('strs', 'u8x6'), ('sym_idx', 'u8'), ('little', 'bool')], 'bound': 'one VerNeed record with one auxiliary record at offset 16, 2 versym entries, the fixed string table "\\0a\\0bc\\0" with vn_file = 1 and vna_name = 3; symbolic: versym, vna_hash, vna_flags, vna_other, symbol index, byte order',
                 'assume': 'strs == [0u8, 97, 0, 98, 99, 0] && need[4..8] == (if little { [1u8, 0, 0, 0] } else { [0u8, 0, 0, 1] }) && need[24..28] == (if little { [3u8, 0, 0, 0] } else { [0u8, 0, 0, 3] }) && need[0..2] == (if little { [1u8, 0] } else { [0u8, 1] }) && need[2..4] == (if little { [1u8, 0] } else { [0u8, 1] }) && need[8..12] == (if little { [16u8, 0, 0, 0] } else { [0u8, 0, 0, 16] }) && need[12..16] == [0u8, 0, 0, 0]', 'call': 'check_c13_req(&versym, &need, &strs, sym_idx, little)', 'unwind': 8},
+    'c20': {'args': [('ty0', 'u8'), ('ty1', 'u8'), ('link0', 'u8'), ('link1', 'u8'), ('ent0', 'u8'), ('ent1', 'u8'), ('win0', 'bool'), ('win1', 'bool')],
+            'bound': 'a 248-byte ELF64/LE file with two section headers: 8 section types x 3 links x 4 entry sizes x 2 data windows each', 'assume': 'true',
+            'call': 'check_c20(ty0, ty1, link0, link1, ent0, ent1, win0, win1)', 'unwind': 10},
     'c10': {'args': [('ident', 'u8x16')], 'bound': 'none (all 16-byte idents)', 'assume': 'true', 'call': 'check_c10(&ident)', 'unwind': 6},
     'hash': {'args': [('buf', 'u8x5'), ('len', 'usize')], 'bound': 'name <= 5 bytes', 'assume': 'len <= 5', 'call': 'check_hash(&buf[..len])', 'unwind': 7},
 }
@@ -201,6 +204,7 @@ PAIRING = [
     (r'^C09\.(get\.|next\.|iter)', lambda m: 'c09'),
     (r'^C10\.(verify_ident|parse_ident|from_ei_data)\.', lambda m: 'c10'),
     (r'^(C12\.sysv_hash|C11\.gnu_hash|proof:hash::sysv_hash|proof:hash::gnu_hash)', lambda m: 'hash'),
+    (r'^(C20\.(common|symbol_table|dynamic_symbol_table|dynamic|as_symtab)\.|proof:elf_bytes::ElfBytes::(find_common_data|symbol_table|dynamic_symbol_table|dynamic))', lambda m: 'c20'),
     (r'^C14\.(note|iter)\.', lambda m: ['c14_a4', 'c14_a8', 'c14_a3']),
     (r'^C03\.(section_range|segment_range|section_data|segment_data)\.', lambda m: 'c03_range'),
     (r'^C1[36]\.VerNeedIterator\.next\.', lambda m: 'c13_need'),
